@@ -2,6 +2,7 @@ package props
 
 import (
 	"fmt"
+	"time"
 
 	"github.com/Tom-Johnston/mamba/graph"
 	"pgregory.net/rapid"
@@ -257,7 +258,14 @@ func isPlanarOf(what string, g *oracle.G, rep string) (bool, error) {
 		gr = repOf(g, rep)
 	}
 	var ans bool
-	if p := try(func() { ans = graph.IsPlanar(gr) }); p != nil {
+	// IsPlanar is polynomial: a call on at most a few hundred vertices that is still running after 60 s (or allocating
+	// without bound) does not terminate in any useful sense; the case is saved and the process ends (exit 3 = violation)
+	finished, p := withDeadline(60*time.Second, func() { ans = graph.IsPlanar(gr) })
+	if !finished {
+		raw, _ := jsonMarshal(planarCase{G: specOf(g), Expect: -1, DelEdge: -1, DelVertex: -1})
+		hang(currentSub, raw, fmt.Sprintf("IsPlanar(%s, %s; n=%d edges %v) still running after 60 s", what, rep, g.N, clipEdges(g)))
+	}
+	if p != nil {
 		return false, fmt.Errorf("IsPlanar(%s, %s; n=%d edges %v) panicked: %v", what, rep, g.N, clipEdges(g), p)
 	}
 	return ans, nil
@@ -373,7 +381,12 @@ func checkPlanarCase(c planarCase, rec *Rec) error {
 			view := graph.InducedSubgraph(host, rev)
 			ask := func(when string) error {
 				var ans bool
-				if p := try(func() { ans = graph.IsPlanar(view) }); p != nil {
+				finished, p := withDeadline(60*time.Second, func() { ans = graph.IsPlanar(view) })
+				if !finished {
+					raw, _ := jsonMarshal(c)
+					hang(currentSub, raw, fmt.Sprintf("IsPlanar(view of a %s host, %s) still running after 60 s", hostKind, when))
+				}
+				if p != nil {
 					return fmt.Errorf("IsPlanar(view of a %s host, %s) panicked: %v", hostKind, when, p)
 				}
 				if w := oracle.Planar(model); ans != w {
